@@ -95,6 +95,7 @@ type Result struct {
 	Solver        SolverStats
 	Funcs         map[string]int // function -> instructions executed
 	Stubs         map[string]int // replaced functions -> calls
+	Sites         map[string]int // where new decisions (forks) were taken
 	Samples       []map[string]any
 	InconclusiveNotes []string
 	MaxStepsSeen  int
@@ -151,6 +152,7 @@ type pathRun struct {
 	mutexes map[*value]*muState
 	locals  []*localCtx
 	replayPos int
+	sites   map[string]int
 	known   map[*Term]bool // terms assumed on the global path (syntactic pruning)
 	wgs     map[*value]*wgState
 }
@@ -215,6 +217,7 @@ func (r *pathRun) decide(cond *Term, why string) bool {
 		r.assume(ncond)
 		return false
 	}
+	r.sites[r.where()+" ["+why+"]"]++
 	side := r.eval(cond) != 0
 	var other *Term
 	if side {
@@ -263,6 +266,7 @@ func (r *pathRun) concretize(x sym, why string) value {
 			r.assume(nc)
 			continue
 		}
+		r.sites[r.where()+" [concretize "+why+"]"]++
 		v := r.eval(t)
 		c := r.ctx.Eq(t, r.ctx.Const(t.W, v))
 		res, m := r.check(r.ctx.Not(c))
@@ -413,7 +417,7 @@ func addStats(a *SolverStats, b SolverStats) {
 func (e *Engine) runPath(fn *ssa.Function, it workItem, solver *Solver) {
 	solver.Reset()
 	r := &pathRun{eng: e, ctx: NewTermCtx(), solver: solver, prefix: it.prefix,
-		funcs: map[*ssa.Function]*int{}, stubs: map[string]int{}}
+		funcs: map[*ssa.Function]*int{}, stubs: map[string]int{}, sites: map[string]int{}}
 	m := it.model
 	if m == nil {
 		m = map[string]uint64{}
@@ -480,6 +484,12 @@ func (e *Engine) runPath(fn *ssa.Function, it workItem, solver *Solver) {
 	}
 	for k, v := range r.stubs {
 		res.Stubs[k] += v
+	}
+	if res.Sites == nil {
+		res.Sites = map[string]int{}
+	}
+	for k, v := range r.sites {
+		res.Sites[k] += v
 	}
 	switch outcome {
 	case "completed":
